@@ -3726,6 +3726,15 @@ SBEPP_CPP17_INLINE_VAR constexpr nullopt_t nullopt{0};
 
 namespace detail
 {
+// `nullValue` of floating-point types is NaN by default and NaN never compares
+// equal to anything, including itself (`x != x` is true only for NaN)
+template<typename T>
+constexpr bool is_null_value(const T value, const T null_value) noexcept
+{
+    return (value == null_value)
+           || ((null_value != null_value) && (value != value));
+}
+
 // see `optional_base` note about explicit `alignas`
 //! @brief Base class for required types
 //! @note `in_range()` check is not enforced implicitly, it's up to client to
@@ -3897,7 +3906,7 @@ public:
     //! @brief Checks if has value
     constexpr bool has_value() const noexcept
     {
-        return (val != Derived::null_value());
+        return !detail::is_null_value(val, Derived::null_value());
     }
 
     //! @brief Checks if has value
@@ -3917,7 +3926,7 @@ public:
     constexpr friend bool
         operator==(const optional_base& lhs, const optional_base& rhs) noexcept
     {
-        return *lhs == *rhs;
+        return (*lhs == *rhs) || (!lhs && !rhs);
     }
 
 #ifdef SBEPP_DOXYGEN
@@ -3942,7 +3951,7 @@ public:
     constexpr friend bool
         operator!=(const optional_base& lhs, const optional_base& rhs) noexcept
     {
-        return *lhs != *rhs;
+        return !(lhs == rhs);
     }
 
     //! @brief Tests if `lhs` is less than `rhs`
